@@ -219,6 +219,12 @@ MarkFailed(e) ==
        \cup (IF Has(e, "am") /\ ~(UNION {MarksIn(e.a[i]) : i \in {j \in 1..Len(e.a) : ~e.am[j]}} \subseteq MarksIn(e.ra.val))
              THEN {"C04.DeepMarksKept"} ELSE {})
        \cup (IF e.api = "SetVal" /\ ~(UnionMarks(e.a) = TopMarks(e.ra.val)) THEN {"C04.SetHoists"} ELSE {})
+       \* the mark API: WithSameMarks / WithMarks give the receiver exactly its own top-level marks plus those of the sources;
+       \* Unmark removes the top-level marks only, UnmarkDeep all; none of them changes the value
+       \cup (IF e.api \in {"WithSameMarks", "WithMarks"} /\ TopMarks(e.ra.val) # UnionTopMarks(e.a) THEN {"C04.MarkApiExact"} ELSE {})
+       \cup (IF e.api = "Unmark" /\ (TopMarks(e.ra.val) # {} \/ MarksIn(e.ra.val) # UNION {MarksIn(m) : m \in Members(e.a[1])}) THEN {"C04.MarkApiExact"} ELSE {})
+       \cup (IF e.api = "UnmarkDeep" /\ MarksIn(e.ra.val) # {} THEN {"C04.MarkApiExact"} ELSE {})
+       \cup (IF e.api \in {"WithSameMarks", "WithMarks", "Unmark", "UnmarkDeep"} /\ UnmarkDeep(e.ra.val) # UnmarkDeep(e.a[1]) THEN {"C04.MarkApiKeepsValue"} ELSE {})
        \cup (IF ~WellFormedR(e.ra) THEN {"C06.WellFormed"} ELSE {})
 MarkNontrivial(e) == e.ra.ok /\ UnionMarks(e.a) # {}
 
